@@ -397,8 +397,23 @@ def _optional_rules(ctx, prog, c):
                 ctx.bad("R18.4", f, "deep-copy:%s" % what,
                         "storage is assigned %s - not a fresh make_unique<T>(*%s): the copy shares/steals the source's object" % (fmt(rhs), pname),
                         (f, e.get("ln")))
+    def _selftest_edge(f):
+        """edge filter: the edge on which source and target are known to be the same object (`this == &other`, `data_.get() == std::addressof(value)`) is
+        the self-assignment path - nothing has to be written there"""
+        pn1 = f.params[0]["name"] if f.params else "?"
+
+        def ok_edge(b, to, lab):
+            c = f.term(b).get("cond")
+            if c is None:
+                return True
+            t = fmt(c)
+            ident = ("this" in t or "%s.get()" % short(dq) in t) and ("&%s" % pn1 in t.replace("(", "").replace(" ", "") or "addressof(%s)" % pn1 in t)
+            if not ident:
+                return True
+            return not ((t.find("!=") >= 0 and lab == "false") or (t.find("==") >= 0 and lab == "true"))
+        return ok_edge
     for f in copy_asg:
-        ok, path = cfg.must_happen_before_exit(f, lambda e: any(True for w in _writes_in_elem(e, dq)))
+        ok, path = cfg.must_happen_before_exit(f, lambda e: any(True for w in _writes_in_elem(e, dq)), edge_ok=_selftest_edge(f))
         ctx.check(ok, "R18.4", f, "path without write to data_",
                   "copy assignment leaves the target untouched on the path B%s (source empty): assigning an empty optional does not empty the target"
                   % "->B".join(str(b) for b in (path or [])), f)
@@ -432,7 +447,7 @@ def _optional_rules(ctx, prog, c):
         pn0 = f.params[0]["name"] if f.params else None
         selftest = lambda b, to, lab, f=f: not (f.term(b).get("cond") is not None and "this" in fmt(f.term(b)["cond"]) and "&" in fmt(f.term(b)["cond"])
                                             and ((fmt(f.term(b)["cond"]).find("!=") >= 0 and lab == "false") or (fmt(f.term(b)["cond"]).find("==") >= 0 and lab == "true")))
-        ok, path = cfg.must_happen_before_exit(f, lambda e: any(True for w in _writes_in_elem(e, dq)), edge_ok=selftest)
+        ok, path = cfg.must_happen_before_exit(f, lambda e: any(True for w in _writes_in_elem(e, dq)), edge_ok=lambda b, to, lab, f=f: selftest(b, to, lab) and _selftest_edge(f)(b, to, lab))
         what = "move-assign" if f.flags.get("move_assign") else "assign(%s)" % (f.params[0].get("type") if f.params else "")
         ctx.check(ok, "R18.4", f, "assignment-always-overwrites:" + what,
                   "%s leaves the target's old value in place on the path B%s: after `a = b` the target does not hold b's state (an empty source does not empty the target)"
